@@ -1701,12 +1701,12 @@ class Engine:
                             mf = None
                         else:
                             mt = None
+                    if mt is not None and mf is not None and st.pending:
+                        # decide the deferred assertions before forking; a reported violation restricts the path to the
+                        # side where the assertion holds, which may leave only one side of this branch feasible
+                        self.flush(st)
+                        mt, mf = self.feasible_both(st, cv)
                     if mt is not None and mf is not None:
-                        if st.pending:
-                            self.flush(st)
-                            mt, mf = self.feasible_both(st, cv)
-                            if mt is None or mf is None:
-                                raise Inconclusive('fork feasibility changed after assertion flush')
                         other = st.fork()
                         other.dec = st.dec + (1,)
                         st.dec = st.dec + (0,)
